@@ -69,6 +69,8 @@ class Ctx:
         self.steps = {}
         self.t0 = time.time()
         self.broken = []          # list of dicts {kind, name, detail}
+        self.search_mode = False  # translator failed; last-good generated model installed to search for a failing input
+        self.stale = []           # (path, failure-marker text) to put back
         self.log_lines = []
 
     def log(self, *a):
@@ -98,7 +100,39 @@ def step_gen(ctx, modules):
         if not info or 'error' in info:
             ctx.broken.append({'kind': 'translator', 'name': 's4gen', 'detail': str(info)[:500]})
         ctx.log('gen FAILED', info)
+        install_last_good(ctx, [m for m, st in info.items() if isinstance(st, dict) and not st.get('ok', True)])
     return rc == 0
+
+
+LAST_GOOD = os.path.join(VERIF, 'gen', 'last_good')
+
+
+def install_last_good(ctx, failed):
+    """Search mode. The translator rejected the current source, so the proof obligation is broken and the
+    verdict is already VIOLATION. To look for a concrete failing input, the model generated from the last
+    source the translator accepted (committed snapshot gen/last_good/, written by tools/snapshot_gen.py) is
+    installed for the driver only: correspondence then compares the CURRENT implementation with the PREVIOUS
+    model, and the implementation oracles run as usual. No theorem is claimed in this mode."""
+    if not failed or not all(os.path.exists(os.path.join(LAST_GOOD, m + '.lean')) for m in failed):
+        return
+    for m in failed:
+        path = os.path.join(LEAN, 'S4V', 'Gen', m + '.lean')
+        try:
+            marker = open(path).read()
+        except OSError:
+            marker = None
+        shutil.copyfile(os.path.join(LAST_GOOD, m + '.lean'), path)
+        ctx.stale.append((path, marker))
+    ctx.search_mode = True
+    ctx.log('search mode: installed the last accepted generated model for', failed, 'to look for a failing input (no theorem claimed)')
+
+
+def restore_stale(ctx):
+    for path, marker in ctx.stale:
+        if marker is not None:
+            with open(path, 'w') as f:
+                f.write(marker)
+    ctx.stale = []
 
 
 def lake_build(targets, timeout=3000):
@@ -413,6 +447,7 @@ def write_replay(ctx, data):
 
 def decide(ctx, prove_res, corr_results, oracle_res, level_note, assumptions, extra_cov=None):
     """Write evidence, print KNOWN-FINDING / VIOLATION lines, return exit code."""
+    restore_stale(ctx)
     known = load_known()
     open_f = [k for k in known.get('open', []) if k['property'] == ctx.pid]
     violations = []
@@ -563,7 +598,7 @@ def standard_check(ctx, gen, mods, components, oracle_fn, level_note, assume, ne
     extra_corr_fn(ctx) -> list of extra correspondence results (e.g. trace replay)."""
     ok_gen = step_gen(ctx, gen) if gen else True
     prove = step_prove(ctx, mods) if ok_gen else {'module': ' '.join(mods), 'obligations': 0, 'discharged': 0}
-    ok_drv = step_drv(ctx) if ok_gen else False
+    ok_drv = step_drv(ctx) if (ok_gen or ctx.search_mode) else False
     ok_impl = step_build_impl(ctx, need_s4=need_s4, need_harness=need_harness)
     corr = []
     if ok_drv and ok_impl:
